@@ -15,6 +15,8 @@ interposer.reexec_with_preload()
 
 import http.client  # noqa: E402
 import json  # noqa: E402
+import logging  # noqa: E402
+import traceback  # noqa: E402
 import os  # noqa: E402
 import re  # noqa: E402
 import socket  # noqa: E402
@@ -759,6 +761,90 @@ def witness_f6(ctx):
                       "the two requests gives that (home creation and handler are separate lock windows)", case, finding="F6")
 
 
+SYNC_BODY = '<?xml version="1.0"?><D:sync-collection xmlns:D="DAV:"><D:sync-token/><D:prop><D:getetag/></D:prop></D:sync-collection>'
+QUERY_BODY = ('<?xml version="1.0"?><C:calendar-query xmlns:D="DAV:" xmlns:C="urn:ietf:params:xml:ns:caldav"><D:prop><D:getetag/></D:prop>'
+              '<C:filter><C:comp-filter name="VCALENDAR"/></C:filter></C:calendar-query>')
+TOKEN_PROPFIND = '<?xml version="1.0"?><D:propfind xmlns:D="DAV:"><D:prop><D:sync-token/><D:getetag/></D:prop></D:propfind>'
+
+
+def strip_tokens(text):
+    """sync tokens are opaque: what an answer says is its statuses, members and ETags (a token minted for objects without history
+    entries contains fresh random seeds, so two such answers never agree on it)"""
+    return re.sub(r"<(\w+:)?sync-token>[^<]*</(\w+:)?sync-token>", "<sync-token/>", text or "")
+
+
+def run_overlapping_reads(ctx, rng, hid):
+    """requests that only read - sync-collection, calendar-query, PROPFIND with sync-token - sent by several clients at once right
+    after a write: reads commute, so every one-at-a-time order gives each of them the answer a single client gets afterwards.  (These
+    reads are not pure inside the server: the first sync after a change writes a token and history entries, the first read after an
+    upload by other means writes cache entries - under the shared lock, side by side.)  Outside the sequential model: the oracle is the
+    sequential answer of the same server."""
+    variant = rng.choice([None, {"storage": {"use_cache_subfolder_for_synctoken": "True", "use_cache_subfolder_for_history": "True"}}])
+    conf = dict(variant or {}, auth={"type": "none"}, rights=permissive_rights())
+    with App(conf) as app:
+        login = "u:pw"
+        app.request("MKCALENDAR", "/u/c/", login=login)
+        n = rng.choice([4, 6, 8])
+        for rnd in range(rng.randint(2, 4)):
+            w = rng.random()
+            if w < 0.6:
+                app.request("PUT", "/u/c/e%d.ics" % rng.randint(0, 5), davsim.cal_text([rng.choice([o for o in davsim.POOL if o["kind"] == "VEVENT"])]), login=login)
+            elif w < 0.8:
+                app.request("DELETE", "/u/c/e%d.ics" % rng.randint(0, 5), login=login)
+            else:
+                objs, seen = [], set()
+                for o in rng.sample([o for o in davsim.POOL if o["kind"] == "VEVENT"], 3):
+                    if o["uid"] not in seen:
+                        seen.add(o["uid"])
+                        objs.append(o)
+                app.request("PUT", "/u/c/", davsim.cal_text(objs), login=login, CONTENT_TYPE="text/calendar")
+            kind = rng.choice(["sync-collection", "sync-collection", "calendar-query", "propfind-token"])
+            method, body, env = {"sync-collection": ("REPORT", SYNC_BODY, {}), "calendar-query": ("REPORT", QUERY_BODY, {}),
+                                 "propfind-token": ("PROPFIND", TOKEN_PROPFIND, {"HTTP_DEPTH": "1"})}[kind]
+            go = threading.Barrier(n)
+            got = [None] * n
+            errors = []
+
+            class Tap(logging.Handler):
+                def emit(self, record):
+                    if record.levelno >= logging.ERROR and len(errors) < 3:
+                        errors.append((record.getMessage()[:300], "".join(traceback.format_exception(*record.exc_info))[-700:] if record.exc_info else ""))
+            tap = Tap()
+            rlog = logging.getLogger("radicale")
+            old_level, old_disabled = rlog.level, rlog.disabled
+            rlog.addHandler(tap)
+            rlog.disabled = False
+            rlog.setLevel(logging.ERROR)
+
+            def client(k):
+                try:
+                    go.wait(10)
+                    st, _, text = app.request(method, "/u/c/", body, login=login, **env)
+                    got[k] = (st, strip_tokens(text))
+                except Exception as e:      # noqa
+                    got[k] = ("exception", repr(e))
+            ts = [threading.Thread(target=client, args=(k,)) for k in range(n)]
+            for t in ts:
+                t.start()
+            for t in ts:
+                t.join(60)
+            rlog.removeHandler(tap)
+            rlog.setLevel(old_level)
+            rlog.disabled = old_disabled
+            ref = app.request(method, "/u/c/", body, login=login, **env)
+            ref = (ref[0], strip_tokens(ref[2]))
+            case = {"history": hid, "round": rnd, "clients": n, "request": kind, "storage_options": (variant or {}).get("storage", {}),
+                    "statuses": [g[0] if g else None for g in got], "sequential_status": ref[0], "server_errors": errors}
+            ctx.case("overlapping-reads:%s" % kind, sample=case, key=[hid, rnd], nontrivial=True)
+            bad = [k for k, g in enumerate(got) if g != ref]
+            if bad:
+                g = got[bad[0]]
+                ctx.violation("%d of %d %s requests sent at once after a write were answered differently from the same request sent alone "
+                              "(%s vs %s) - no one-at-a-time order of read-only requests gives that" % (len(bad), n, kind, g[0] if g else None, ref[0]),
+                              dict(case, an_answer=(g[1] or "")[:300] if g else None))
+                return
+
+
 def run(ctx):
     ctx.extra["rule"] = ("concurrent histories: 2-8 clients x 2-4 requests (PUT / GET / DELETE / MOVE / PROPFIND 1 / multiget / whole PUT / DELETE "
                          "collection on 2 calendars x 2 names), threads on one Application and 2-3 server processes on one folder, random delays "
@@ -771,6 +857,10 @@ def run(ctx):
     if not ctx.driver:
         return
     rng = ctx.rng("conc")
+    # (first: the levels below install delays and gates at system calls and lock acquisitions; this one wants none of them)
+    orng = ctx.rng("overlapping-reads")
+    for h in range(ctx.n(10, 300)):
+        run_overlapping_reads(ctx, orng, ("o", h))
     n_threads = ctx.n(30, 1500)
     n_mp = ctx.n(3, 120)
     for h in range(n_threads):
